@@ -48,6 +48,7 @@ PROPS = {
  ),
  'C12': dict(
     modules=['SlacProps.C12', 'SlacProps.C12Text'],
+    srcgen={'SrcSerde': 'SlacProps.C12Source'},
     streams=[dict(name='json', n=n(60000, 2000000), oracle='none', laws=['json_same']),
              dict(name='deep:json', n=n(1000, 50000), oracle='none', laws=['json_same']),
              dict(name='spine:json', n=n(600, 20000), oracle='none', laws=['json_same']),
